@@ -55,7 +55,7 @@ def flags_mode(ctx):
 KINDS = ["reg", "deleted", "deleted_stale", "relative", "socket", "pipe", "anon", "chardev", "toolong", "notlink", "closed_at_readlink", "closed_at_fdinfo", "directory"]
 
 
-@harness("C14.open_files", quick=[dict(n=n, acc3=False) for n in (0, 1, 2)] + [dict(n=1, acc3=True)], thorough=[dict(n=n, acc3=False) for n in (0, 1, 2, 3)] + [dict(n=2, acc3=True)])
+@harness("C14.open_files", quick=[dict(n=n, acc3=False) for n in (0, 1, 2)] + [dict(n=1, acc3=True)], thorough=[dict(n=n, acc3=False) for n in (0, 1, 2, 3, 4)] + [dict(n=2, acc3=True)])
 def open_files(ctx, n, acc3):
     k = simk.Kernel(ctx)
     simk.system_files(k)
